@@ -32,6 +32,8 @@ val leb : nat -> nat -> bool
 
 val ltb : nat -> nat -> bool
 
+val max : nat -> nat -> nat
+
 val eqb0 : bool -> bool -> bool
 
 module Nat :
@@ -726,6 +728,8 @@ type token =
 | TVerb of nat * text * text list
 | TTest of text option * text list * (nat * text) list * text list
 
+val tok_raw : token -> text list
+
 type mstate =
 | Top of bool
 | InFront of text list * text list
@@ -819,6 +823,24 @@ val needs_kind : n list -> bool
 val expectation_line : mode -> n list -> text
 
 val rule_matches : rule -> n list -> bool
+
+val has_command : (nat * text) list -> bool
+
+val max_bt : nat -> text list -> nat
+
+val fence_for : text list -> text
+
+val header : text option -> text
+
+val update_tok : token -> text list list -> text list * text list list
+
+val update_toks : token list -> text list list -> text list
+
+val update_md : text list -> text list list -> text list
+
+val is_test : token -> bool
+
+val outside : token list -> text list
 
 val make_exp : bool -> bool -> (nat -> bool) -> nat exp
 
